@@ -255,7 +255,7 @@ func (x *Exec) modularCall(st *State, fr *Frame, v *ssa.Call, callee *ssa.Functi
 			}
 		}
 	}
-	pkg := fr.fn.Pkg.Pkg
+	pkg := fnPkg(fr.fn)
 	if p := x.ld.pkgByName[fc.Pkg]; p != nil {
 		pkg = p
 	}
@@ -385,7 +385,7 @@ func copyTypes(m map[string]types.Type) map[string]types.Type {
 }
 
 func (x *Exec) sameRecGroup(callee *ssa.Function) bool {
-	return callee != nil && callee.Pkg == x.top.Pkg
+	return callee != nil && fnPkg(callee) == fnPkg(x.top)
 }
 
 // checkModCovered: a callee's modifies item must lie inside the caller's frame.
@@ -996,7 +996,7 @@ func (x *Exec) modularCallFunc(st *State, fr *Frame, v *ssa.Call, fam *FuncContr
 }
 
 func (x *Exec) modularCallBound(st *State, fr *Frame, v *ssa.Call, fc *FuncContract, vars map[string]Val, tys map[string]types.Type, site string) {
-	pkg := fr.fn.Pkg.Pkg
+	pkg := fnPkg(fr.fn)
 	if p := x.ld.pkgByName[fc.Pkg]; p != nil {
 		pkg = p
 	}
